@@ -26,7 +26,8 @@ bool name_eq(const std::string& member, const std::string& q) { return refvol::i
 std::string ext_of(const std::string& n) { size_t p = n.rfind('.'); if (p == std::string::npos || p == 0) return ""; return n.substr(p); }
 
 std::vector<uint8_t> content_for(const std::string& who, const std::string& name, uint64_t salt) {
-	std::vector<uint8_t> v; std::string s = who + ":" + name + ":" + std::to_string(salt % 7);
+	std::vector<uint8_t> v; if (salt % 11 == 3) return v;   // zero-length loose files and members exist too (a loose empty file still shadows a member)
+	std::string s = who + ":" + name + ":" + std::to_string(salt % 7);
 	v.assign(s.begin(), s.end()); return v;
 }
 
@@ -37,7 +38,7 @@ Layout gen_layout(Tape& t, unsigned serial) {
 	unsigned nv = unsigned(t.below(4)), nc = unsigned(t.below(3));
 	for (unsigned i = 0; i < nv + nc; ++i) {
 		Arch a; a.isVol = i < nv; a.loaded = true;
-		a.file = std::to_string(i + 1) + (a.isVol ? ".vol" : ".clm");
+		a.file = std::to_string(i + 1) + (t.below(6) == 0 ? ".0" : "") + (a.isVol ? ".vol" : ".clm");   // '3.0.vol' is an archive as well: only the last extension counts
 		if (t.below(8) == 0) { a.file = std::to_string(i + 1) + (a.isVol ? ".VOL" : ".Clm"); a.loaded = false; }   // not matched by the exact-extension scan
 		unsigned nm = unsigned(t.below(5)); bool dups = t.below(5) == 0;
 		if (a.isVol && t.below(3) == 0) { a.unusedSlots = 1 + unsigned(t.below(3)); a.unusedFill = t.flag() ? 0 : t.u32(); }   // trailing unused index slots (the game's own volumes have them)
